@@ -1,3 +1,3 @@
 INIT Init
 NEXT Next
-INVARIANT Emit
+INVARIANT Emit LayoutLaws
